@@ -6,6 +6,7 @@ evaluator written against the documentation (`np_eval`, used for kink margins an
 AST nodes (tuples):
   ("num", c) ("var", v, sel) ("par", q, sel) ("prev", v, sel)
   ("add"|"sub"|"mul"|"div", a, b) ("neg", a) ("powi", a, n)
+  ("powr", a, b)     a ** b with a real exponent (number, parameter or expression) and a positive base; Lean: exp(b * ln a)
   ("sin"|"cos"|"exp"|"ln"|"abs"|"sign"|"heav", a)
   ("min", a, b) ("sat", v, lo, hi) ("awu", u, lo, hi, e)
 sel: ("w",) | ("i", k) | ("s", a, b)
@@ -384,6 +385,8 @@ def np_eval(m: GModel, a, env, margins=None):
         return -ev(a[1])
     if op == "powi":
         return ev(a[1]) ** a[2] if a[2] >= 0 else 1.0 / ev(a[1]) ** (-a[2])
+    if op == "powr":
+        return np.power(ev(a[1]), ev(a[2]))
     if op == "sin":
         return np.sin(ev(a[1]))
     if op == "cos":
@@ -516,6 +519,8 @@ def build(m: GModel):
             return -conv(a[1])
         if op == "powi":
             return conv(a[1]) ** a[2]
+        if op == "powr":
+            return conv(a[1]) ** conv(a[2])
         if op in F1:
             return F1[op](conv(a[1]))
         if op == "matvec":
@@ -597,4 +602,17 @@ def corpus():
     C.append(GModel("AE", [("x", [c17, 0.3, 0.30000000000000010], None), ("w", [c16, 0.333333333333333, 0.5], None)], [],
                     [("e0", "alg", ("add", ("heav", ("sub", ("var", 0, ("w",)), ("num", c17))), ("var", 1, ("w",))), None),
                      ("e1", "alg", ("add", ("sign", ("sub", ("var", 1, ("w",)), ("num", c16))), ("mul", ("num", 2.0), ("var", 0, ("w",)))), None)]))
+    # powers with a real exponent: x ** 0.5 (printed as sqrt), x ** -0.5, a parameter as exponent, a variable as exponent (2 ** w),
+    # base and exponent both depending on variables.  Points of their own (own_rng), bases stay positive.
+    g = GModel("AE", [("x", [2.7, 3.3], None), ("z", [0.4], None)], [("p", "plain", dict(value=[0.5])), ("c", "plain", dict(value=[1.5, 2.5]))],
+               [("e0", "alg", ("sub", ("add", ("powr", ("var", 0, ("w",)), ("num", 0.5)), ("var", 1, ("w",))), ("par", 1, ("w",))), None),
+                ("e1", "alg", ("sub", ("powr", ("add", ("num", 1.5), ("powi", ("var", 1, ("w",)), 2)), ("par", 0, ("w",))), ("var", 0, ("i", 0))), None)])
+    g.own_rng = True
+    C.append(g)
+    g = GModel("DAE", [("x", [1.8], None), ("w", [1.2, 0.6], None)], [("k", "plain", dict(value=[0.3]))],
+               [("g", "alg", ("sub", ("powr", ("num", 2.0), ("var", 1, ("w",))), ("mul", ("powr", ("add", ("num", 1.5), ("powi", ("var", 0, ("w",)), 2)), ("var", 1, ("w",))),
+                                                                                     ("powr", ("var", 0, ("w",)), ("num", -0.5)))), None),
+                ("f", "ode", ("add", ("neg", ("powr", ("var", 0, ("w",)), ("num", 1.5))), ("par", 0, ("w",))), (0, ("w",)))])
+    g.own_rng = True
+    C.append(g)
     return C
